@@ -232,6 +232,14 @@ impl UdpSocket {
         let addr = resolve_addr(addr)?;
         world::with(|w| {
             let label = w.next_label("u");
+            // an ephemeral socket of the code under test may fail to open
+            // (EMFILE, ENOBUFS); listening sockets are bound at start-up, before
+            // the properties begin to apply
+            if addr.port() == 0 && w.choose("udp.bind_error", &label, 2) == 1 {
+                w.bump("fired.udp.bind_error");
+                w.log_event("udp.bind_error", &label);
+                return Err(io::Error::new(io::ErrorKind::Other, "injected bind error"));
+            }
             udp_bind(w, addr, label, false)
         })
     }
